@@ -56,7 +56,12 @@ def run_cases(res, case_iter, props, nontrivial, sample_every=50, coverage_props
             continue
         res.evaluations += 1
         res.count("runs_completed")
-        I = e2e.evaluate(run)
+        try:
+            I = e2e.evaluate(run)
+        except Exception as e:      # an oracle that cannot digest what it recorded decides nothing for this run
+            import traceback
+            res.inconclusive.append("oracle error on a completed run: %s" % traceback.format_exc()[-600:])
+            continue
         _report(res, I, props, case, completed=True)
         key = nontrivial(run, I)
         if key:
